@@ -605,31 +605,238 @@ Section VisitSelect.
         * rewrite (field_res_err e dq x _ Hy). reflexivity.
       + destruct so as [y|].
         { rewrite field_res_cons_some.
-          destruct (field_res_shape e dq sq (select kt 0 m) Hq) as [[s ->]|->]; reflexivity. }
+          destruct (field_res_shape e dq sq (select kt 0 m) Hq) as [[s ->] | ->]; reflexivity. }
         destruct (Ho x) as [[y Hy]|Hy]; rewrite Hy; cbn [bindo].
         * rewrite IH. cbn [s_q s_o s_v s_x]. rewrite (field_res_step e dop x y _ Hy). reflexivity.
         * rewrite (field_res_err e dop x _ Hy).
-          destruct (field_res_shape e dq sq (select kt 0 m) Hq) as [[s ->]|->]; reflexivity.
+          destruct (field_res_shape e dq sq (select kt 0 m) Hq) as [[s ->] | ->]; reflexivity.
       + destruct sv as [y|].
         { rewrite field_res_cons_some.
-          destruct (field_res_shape e dq sq (select kt 0 m) Hq) as [[s ->]|->]; [|reflexivity].
-          destruct (field_res_shape e dop so (select kt 1 m) Ho) as [[s' ->]|->]; reflexivity. }
+          destruct (field_res_shape e dq sq (select kt 0 m) Hq) as [[s ->] | ->]; [|reflexivity].
+          destruct (field_res_shape e dop so (select kt 1 m) Ho) as [[s' ->] | ->]; reflexivity. }
         destruct (Hv x) as [[y Hy]|Hy]; rewrite Hy; cbn [bindo].
         * rewrite IH. cbn [s_q s_o s_v s_x]. rewrite (field_res_step e dv x y _ Hy). reflexivity.
         * rewrite (field_res_err e dv x _ Hy).
-          destruct (field_res_shape e dq sq (select kt 0 m) Hq) as [[s ->]|->]; [|reflexivity].
-          destruct (field_res_shape e dop so (select kt 1 m) Ho) as [[s' ->]|->]; reflexivity.
+          destruct (field_res_shape e dq sq (select kt 0 m) Hq) as [[s ->] | ->]; [|reflexivity].
+          destruct (field_res_shape e dop so (select kt 1 m) Ho) as [[s' ->] | ->]; reflexivity.
       + destruct sx as [y|].
         { rewrite field_res_cons_some.
-          destruct (field_res_shape e dq sq (select kt 0 m) Hq) as [[s ->]|->]; [|reflexivity].
-          destruct (field_res_shape e dop so (select kt 1 m) Ho) as [[s' ->]|->]; [|reflexivity].
-          destruct (field_res_shape e dv sv (select kt 2 m) Hv) as [[s'' ->]|->]; reflexivity. }
+          destruct (field_res_shape e dq sq (select kt 0 m) Hq) as [[s ->] | ->]; [|reflexivity].
+          destruct (field_res_shape e dop so (select kt 1 m) Ho) as [[s' ->] | ->]; [|reflexivity].
+          destruct (field_res_shape e dv sv (select kt 2 m) Hv) as [[s'' ->] | ->]; reflexivity. }
         destruct (Hx x) as [[y Hy]|Hy]; rewrite Hy; cbn [bindo].
         * rewrite IH. cbn [s_q s_o s_v s_x]. rewrite (field_res_step e dx x y _ Hy). reflexivity.
         * rewrite (field_res_err e dx x _ Hy).
-          destruct (field_res_shape e dq sq (select kt 0 m) Hq) as [[s ->]|->]; [|reflexivity].
-          destruct (field_res_shape e dop so (select kt 1 m) Ho) as [[s' ->]|->]; [|reflexivity].
-          destruct (field_res_shape e dv sv (select kt 2 m) Hv) as [[s'' ->]|->]; reflexivity.
+          destruct (field_res_shape e dq sq (select kt 0 m) Hq) as [[s ->] | ->]; [|reflexivity].
+          destruct (field_res_shape e dop so (select kt 1 m) Ho) as [[s' ->] | ->]; [|reflexivity].
+          destruct (field_res_shape e dv sv (select kt 2 m) Hv) as [[s'' ->] | ->]; reflexivity.
       + rewrite IH. reflexivity.
   Qed.
 End VisitSelect.
+
+Lemma str_eqb_sym a b : str_eqb a b = str_eqb b a.
+Proof.
+  destruct (str_eqb a b) eqn:E1, (str_eqb b a) eqn:E2; try reflexivity.
+  - apply str_eqb_eq in E1. subst. rewrite str_eqb_refl in E2. discriminate.
+  - apply str_eqb_eq in E2. subst. rewrite str_eqb_refl in E1. discriminate.
+Qed.
+
+Lemma std_keys_distinct :
+  str_eqb K_QUERY K_OPNAME = false /\ str_eqb K_QUERY K_VARIABLES = false /\ str_eqb K_QUERY K_EXTENSIONS = false /\
+  str_eqb K_OPNAME K_VARIABLES = false /\ str_eqb K_OPNAME K_EXTENSIONS = false /\ str_eqb K_VARIABLES K_EXTENSIONS = false.
+Proof. vm_compute. repeat split; reflexivity. Qed.
+
+Lemma select_std {T} kt (m : list (str * T)) :
+  k_query kt = [K_QUERY] -> k_op kt = [K_OPNAME] -> k_vars kt = [K_VARIABLES] -> k_exts kt = [K_EXTENSIONS] ->
+  select kt 0 m = map snd (filter (fun kv => str_eqb K_QUERY (fst kv)) m) /\
+  select kt 1 m = map snd (filter (fun kv => str_eqb K_OPNAME (fst kv)) m) /\
+  select kt 2 m = map snd (filter (fun kv => str_eqb K_VARIABLES (fst kv)) m) /\
+  select kt 3 m = map snd (filter (fun kv => str_eqb K_EXTENSIONS (fst kv)) m).
+Proof.
+  intros H0 H1 H2 H3.
+  destruct std_keys_distinct as [D1 [D2 [D3 [D4 [D5 D6]]]]].
+  induction m as [|[k x] m [I0 [I1 [I2 I3]]]]; [repeat split; reflexivity|].
+  cbn [select filter fst]. unfold routes. rewrite H0, H1, H2, H3. cbn [key_in existsb].
+  rewrite !orb_false_r.
+  rewrite (str_eqb_sym k K_QUERY), (str_eqb_sym k K_OPNAME), (str_eqb_sym k K_VARIABLES), (str_eqb_sym k K_EXTENSIONS).
+  assert (Hsplit : forall a b c d : Prop, a -> b -> c -> d -> a /\ b /\ c /\ d) by (intros; repeat split; assumption).
+  Ltac closed_eqb := repeat match goal with
+    | |- context [str_eqb ?a ?b] =>
+        let v := eval vm_compute in (str_eqb a b) in
+        match v with true => idtac | false => idtac end; change (str_eqb a b) with v
+    end.
+  destruct (str_eqb K_QUERY k) eqn:E0.
+  { apply str_eqb_eq in E0. subst k. closed_eqb. cbn [N.eqb Pos.eqb map snd]. rewrite I0, I1, I2, I3. repeat split; reflexivity. }
+  destruct (str_eqb K_OPNAME k) eqn:E1.
+  { apply str_eqb_eq in E1. subst k. closed_eqb. cbn [N.eqb Pos.eqb map snd]. rewrite I0, I1, I2, I3. repeat split; reflexivity. }
+  destruct (str_eqb K_VARIABLES k) eqn:E2.
+  { apply str_eqb_eq in E2. subst k. closed_eqb. cbn [N.eqb Pos.eqb map snd]. rewrite I0, I1, I2, I3. repeat split; reflexivity. }
+  destruct (str_eqb K_EXTENSIONS k) eqn:E3; cbn [N.eqb Pos.eqb map snd]; rewrite I0, I1, I2, I3; repeat split; reflexivity.
+Qed.
+
+Lemma lookups_filter k m : lookups k m = map snd (filter (fun kv => str_eqb k (fst kv)) m).
+Proof.
+  induction m as [|[k' v] m IH]; [reflexivity|]. cbn [lookups filter fst].
+  destruct (str_eqb k k'); cbn [map snd]; rewrite IH; reflexivity.
+Qed.
+
+Lemma plookups_filter k m : plookups k m = map snd (filter (fun kv => str_eqb k (fst kv)) m).
+Proof.
+  induction m as [|[k' v] m IH]; [reflexivity|]. cbn [plookups filter fst].
+  destruct (str_eqb k k'); cbn [map snd]; rewrite IH; reflexivity.
+Qed.
+
+(* one member: visitor slot + default = the protocol's reading of the member *)
+Definition conv_dec {T A} (e : N) (dec : T -> outcome A) (conv : T -> option A) : Prop :=
+  forall x, dec x = match conv x with Some y => Ok y | None => Err e end.
+
+Lemma conv_dec_ok {T A} e (dec : T -> outcome A) conv : conv_dec e dec conv -> dec_ok e dec.
+Proof. intros H x. rewrite (H x). destruct (conv x); [left; eexists; reflexivity|right; reflexivity]. Qed.
+
+Lemma member_spec {T A} e (dec : T -> outcome A) conv (d : A) l :
+  conv_dec e dec conv ->
+  bindo (field_res e dec None l) (slot_or e true d) =
+  match spec_member d conv l with Some y => Ok y | None => Err e end.
+Proof.
+  intros H. destruct l as [|x [|y l]]; cbn [field_res spec_member bindo slot_or]; try reflexivity.
+  rewrite (H x). destruct (conv x); reflexivity.
+Qed.
+
+Lemma combine4_chain {Q O V X R} e
+      (a : outcome (option Q)) (b : outcome (option O)) (c : outcome (option V)) (d : outcome (option X))
+      (fq : option Q -> outcome Q) (fo : option O -> outcome (option str)) (fv : option V -> outcome V)
+      (fx : option X -> outcome X) (k : Q -> option str -> V -> X -> R) :
+  ((exists s, a = Ok s) \/ a = Err e) -> ((exists s, b = Ok s) \/ b = Err e) ->
+  ((exists s, c = Ok s) \/ c = Err e) -> ((exists s, d = Ok s) \/ d = Err e) ->
+  (forall s, (exists y, fq s = Ok y) \/ fq s = Err e) -> (forall s, (exists y, fo s = Ok y) \/ fo s = Err e) ->
+  (forall s, (exists y, fv s = Ok y) \/ fv s = Err e) -> (forall s, (exists y, fx s = Ok y) \/ fx s = Err e) ->
+  bindo (combine4 e a b c d)
+        (fun s => bindo (fq (s_q s)) (fun q => bindo (fo (s_o s)) (fun o => bindo (fv (s_v s)) (fun v =>
+                  bindo (fx (s_x s)) (fun x => Ok (k q o v x)))))) =
+  bindo (bindo a fq) (fun q => bindo (bindo b fo) (fun o => bindo (bindo c fv) (fun v =>
+         bindo (bindo d fx) (fun x => Ok (k q o v x))))).
+Proof.
+  intros [[sa ->] | ->] [[sb ->] | ->] [[sc ->] | ->] [[sd ->] | ->] Fq Fo Fv Fx; cbn [combine4 bindo s_q s_o s_v s_x];
+    try reflexivity;
+    repeat match goal with
+           | |- context [bindo (?f ?s) _] =>
+               first [ destruct (Fq s) as [[? ->] | ->] | destruct (Fo s) as [[? ->] | ->]
+                     | destruct (Fv s) as [[? ->] | ->] | destruct (Fx s) as [[? ->] | ->] ]; cbn [bindo]
+           end; reflexivity.
+Qed.
+
+Lemma slot_or_shape {A} e ok (d : A) s : (exists y, slot_or e ok d s = Ok y) \/ slot_or e ok d s = Err e.
+Proof. destruct s; cbn [slot_or]; [left; eexists; reflexivity|]. destruct ok; [left; eexists; reflexivity|right; reflexivity]. Qed.
+
+Lemma cd_string : conv_dec E (d_string E) conv_string.
+Proof. intros [| | | | | |]; reflexivity. Qed.
+Lemma cd_opt_string : conv_dec E (d_opt_string E) conv_opt_string.
+Proof. intros [| | | | | |]; reflexivity. Qed.
+Lemma cd_members e : conv_dec e (decode_map_member e) conv_members.
+Proof. intros [| | | | | |]; reflexivity. Qed.
+
+Lemma chain_eq {A B C D R} (a : option A) (b : option B) (c : option C) (d : option D) (k : A -> B -> C -> D -> R) e :
+  bindo (match a with Some y => Ok y | None => Err e end) (fun q =>
+  bindo (match b with Some y => Ok y | None => Err e end) (fun o =>
+  bindo (match c with Some y => Ok y | None => Err e end) (fun v =>
+  bindo (match d with Some y => Ok y | None => Err e end) (fun x => Ok (k q o v x))))) =
+  match (match a, b, c, d with
+         | Some q, Some o, Some v, Some x => Some (k q o v x)
+         | _, _, _, _ => None
+         end) with
+  | Some r => Ok r
+  | None => Err e
+  end.
+Proof. destruct a, b, c, d; reflexivity. Qed.
+
+(* Request::deserialize (map form) = the protocol's reading of a request object *)
+Lemma decode_map_spec kt m :
+  tab_std kt ->
+  decode_request_map kt m = match spec_request (JObj m) with Some r => Ok r | None => Err E end.
+Proof.
+  intros [H0 [H1 [H2 [H3 [M0 [M1 [M2 M3]]]]]]].
+  unfold decode_request_map.
+  rewrite (visit_select _ _ _ _ _ kt E _ _ _ _ (conv_dec_ok _ _ _ cd_string) (conv_dec_ok _ _ _ cd_opt_string)
+             (conv_dec_ok _ _ _ (cd_members E)) (conv_dec_ok _ _ _ (cd_members E))).
+  destruct (select_std kt m H0 H1 H2 H3) as [S0 [S1 [S2 S3]]]. rewrite S0, S1, S2, S3.
+  rewrite M0, M1, M2, M3. cbn [no_slots s_q s_o s_v s_x].
+  rewrite (combine4_chain E _ _ _ _ (slot_or E true []) (slot_or E true None) (slot_or E true []) (slot_or E true [])
+             (fun q o v x => {| r_query := q; r_op := o; r_vars := v; r_exts := x |}));
+    try (apply field_res_shape; eapply conv_dec_ok; first [apply cd_string | apply cd_opt_string | apply cd_members]);
+    try (intros; apply slot_or_shape).
+  rewrite (member_spec E _ _ _ _ cd_string), (member_spec E _ _ _ _ cd_opt_string), !(member_spec E _ _ _ _ (cd_members E)).
+  unfold spec_request. rewrite !lookups_filter.
+  apply (chain_eq _ _ _ _ (fun q o v x => {| r_query := q; r_op := o; r_vars := v; r_exts := x |})).
+Qed.
+
+Lemma decode_request_spec kt v :
+  tab_std kt -> positional_ok kt v = false ->
+  match spec_request v with
+  | Some r => decode_request kt v = Ok r
+  | None => is_ok (decode_request kt v) = false
+  end.
+Proof.
+  intros Ht Hp. destruct v; try reflexivity.
+  - cbn [spec_request decode_request]. cbn [positional_ok] in Hp. exact Hp.
+  - cbn [decode_request]. rewrite (decode_map_spec kt m Ht). destruct (spec_request (JObj m)); reflexivity.
+Qed.
+
+Lemma decode_all_spec kt l :
+  tab_std kt -> existsb (positional_ok kt) l = false ->
+  match spec_all l with
+  | Some rs => decode_all kt l = Ok rs /\ length rs = length l
+  | None => is_ok (decode_all kt l) = false
+  end.
+Proof.
+  intros Ht. induction l as [|x l IH]; intros Hp; [split; reflexivity|].
+  cbn [existsb] in Hp. apply orb_false_elim in Hp. destruct Hp as [Hx Hl].
+  specialize (IH Hl). pose proof (decode_request_spec kt x Ht Hx) as Hr.
+  cbn [spec_all decode_all].
+  destruct (spec_request x) as [r|].
+  - rewrite Hr. cbn [bindo]. destruct (spec_all l) as [rs|].
+    + destruct IH as [-> Hlen]. split; [reflexivity|]. cbn [length]. rewrite Hlen. reflexivity.
+    + destruct (decode_all kt l); try discriminate; reflexivity.
+  - destruct (decode_request kt x); try discriminate; reflexivity.
+Qed.
+
+(* every JSON tree outside the positional-array class: accepted exactly when
+   the protocol calls it a request or a non-empty batch of requests, and then
+   decoded to exactly those requests in order; otherwise a request error *)
+Theorem json_decode_is_spec kt v :
+  tab_std kt -> json_known kt v = 0 ->
+  decode_batch kt v = match spec_batch v with Some b => Ok b | None => Err E end.
+Proof.
+  intros Ht Hk. destruct v; try reflexivity.
+  - (* array *)
+    cbn [json_known] in Hk.
+    destruct (positional_ok kt (JArr l) || existsb (positional_ok kt) l) eqn:Hp; [discriminate|].
+    apply orb_false_elim in Hp. destruct Hp as [Hp1 Hp2].
+    unfold decode_batch. cbn [decode_request]. cbn [positional_ok] in Hp1.
+    destruct (decode_request_seq kt l) eqn:Hs; try discriminate;
+      (pose proof (decode_all_spec kt l Ht Hp2) as Ha; destruct l as [|x l]; [reflexivity|];
+       cbn [spec_batch]; destruct (spec_all (x :: l)) as [rs|];
+       [destruct Ha as [-> Hlen]; destruct rs; [discriminate|reflexivity]
+       |destruct (decode_all kt (x :: l)); try discriminate; reflexivity]).
+  - (* object *)
+    unfold decode_batch. cbn [decode_request spec_batch]. rewrite (decode_map_spec kt m Ht).
+    destruct (spec_request (JObj m)); reflexivity.
+Qed.
+
+(* the class is not empty today: [] is accepted as a single request *)
+Lemma positional_refuted :
+  spec_batch (JArr []) = None /\
+  decode_batch req_tab (JArr []) = Ok (BSingle {| r_query := []; r_op := None; r_vars := []; r_exts := [] |}) /\
+  json_known req_tab (JArr []) = 2.
+Proof. vm_compute. repeat split; reflexivity. Qed.
+
+(* the operations part with a multipart content type: neither accepted nor rejected *)
+Lemma mp_panic_refuted kt t : decode_mp_operations kt (CtMultipart true) t = Panic.
+Proof. reflexivity. Qed.
+
+(* non-vacuity: a well-formed request with every kind of content *)
+Definition sample_request : request :=
+  {| r_query := [123;97;125]; r_op := Some [81];
+     r_vars := [([97], JArr [JInt 1; JStr [34;92;10]; JObj [([98], JNull); ([97], JFloat 4609434218613702656)]]); ([98], JBool true)];
+     r_exts := [([112], JObj [])] |}.
+Lemma sample_wf : wf_request sample_request.
+Proof. split; split; try reflexivity; repeat constructor. Qed.
